@@ -95,6 +95,7 @@ type fakeHost struct {
 	cancel   context.CancelFunc
 	stream   *fakeStream
 	handlers map[protocol.ID]network.StreamHandler
+	eager    func(handler network.StreamHandler) // run inside SetStreamHandler, once
 }
 
 func (h *fakeHost) ID() peer.ID { return h.self }
@@ -127,6 +128,14 @@ func (h *fakeHost) SetStreamHandler(pid protocol.ID, handler network.StreamHandl
 		h.handlers = map[protocol.ID]network.StreamHandler{}
 	}
 	h.handlers[pid] = handler
+	if h.eager != nil && pid == datatransfer.ProtocolDataTransfer1_2 {
+		// a peer that has been retrying opens its stream the moment the protocol is served
+		e := h.eager
+		h.eager = nil
+		h.mu.Unlock()
+		e(handler)
+		h.mu.Lock()
+	}
 }
 
 type recvCall struct {
@@ -589,22 +598,32 @@ func runNet(dir string, seed uint64, tier string) {
 		h := &fakeHost{self: peerOf(1)}
 		n := dtnet.NewFromLibp2pHost(h)
 		rc := &recvDouble{}
-		if receiverSet {
-			n.SetDelegate(rc)
-		} else {
-			n.SetDelegate(nil)
-		}
 		stream := &fakeStream{proto: datatransfer.ProtocolDataTransfer1_2, conn: &fakeConn{remote: peerOf(peerTok)}, in: bytes.NewReader(buf.Bytes())}
-		handler := h.handlers[datatransfer.ProtocolDataTransfer1_2]
 		panicked := ""
-		func() {
+		serve := func(handler network.StreamHandler) {
 			defer func() {
 				if p := recover(); p != nil {
 					panicked = fmt.Sprint(p)
 				}
 			}()
 			handler(stream)
-		}()
+		}
+		// in some cases the stream arrives the moment the protocol handler is registered, i.e. while SetDelegate is
+		// still running: a message accepted then is dispatched like any other
+		early := receiverSet && id%3 == 0
+		if early {
+			h.eager = serve
+			label += " (stream opened while SetDelegate runs)"
+			res.CaseLabels[len(res.CaseLabels)-1] = label
+		}
+		if receiverSet {
+			n.SetDelegate(rc)
+		} else {
+			n.SetDelegate(nil)
+		}
+		if !early {
+			serve(h.handlers[datatransfer.ProtocolDataTransfer1_2])
+		}
 		if panicked != "" {
 			fail(id, "inbound-panic", "handling an inbound stream panicked: "+panicked, label, nil, nil)
 			continue
